@@ -419,5 +419,28 @@ func carryBoundary(r *lib.Run, g gen, do func(kind string, c nicCfg, args ...str
 				r.Stat("class.carry.icmp6", 1)
 			}
 		}
+		// UDP over IPv6 (sleep proxy response): DNS id steered so that the library's Checksum of pseudo header +
+		// datagram is 0 (sent as 0xffff), 1, 0xffff, 0xfffe
+		s6 := g.ip6()
+		pre := []string{lib.Hex(c.hostMAC), ipTok(s6), lib.Hex(g.mac()), ipTok(netip.MustParseAddr("ff02::fb")), "5353"}
+		probe := r.Exec("sleepproxy", append(append(c.toks(), pre...), "0000"))
+		if f := lib.UnHex(probe); len(f) > 62+12 && f[12] == 0x86 {
+			udp := append([]byte{}, f[54:]...)
+			udp[6], udp[7] = 0, 0
+			psh := append(append([]byte{}, f[22:54]...), 0, 0, byte(len(udp)>>8), byte(len(udp)), 0, 0, 0, 17)
+			psh = append(psh, udp...)
+			for _, want := range []uint16{0, 1, 0xffff, 0xfffe} {
+				for id := 0; id < 65536; id++ {
+					psh[48], psh[49] = byte(id>>8), byte(id)
+					s1 := leFold1(psh)
+					if ^uint16(s1+s1>>16) == want {
+						pl := append([]byte{}, psh[48:]...)
+						do("sleepproxy", c, append(append([]string{}, pre...), lib.Hex(pl))...)
+						r.Stat("class.carry.udp6", 1)
+						break
+					}
+				}
+			}
+		}
 	}
 }
